@@ -61,7 +61,9 @@ def closeRec (ext : WExt) (done : List Spec.Zip.Entry) (gap : Bytes) (o : OpenRe
   | some dp =>
     if o.raw then some (done ++ [specEntry o.f dp gap [] o.plain o.f.versionNeeded], o.junk)
     else
-      if o.f.largeFile = false ∧ UInt64.ofNat (dataOf ext o.f o.plain).length > ZIP64_BYTES_THR then none
+      -- the second disjunct never holds on a run of the writer (`write` refuses the byte that would make
+      -- the plaintext of a non-ZIP64 entry exceed 0xFFFFFFFF); it makes the bound visible on the ghost
+      if o.f.largeFile = false ∧ (UInt64.ofNat (dataOf ext o.f o.plain).length > ZIP64_BYTES_THR ∨ o.plain.length > 0xFFFFFFFF) then none
       else some (done ++ [specEntry (finalRec o.f o.plain (dataOf ext o.f o.plain)) dp gap []
         (dataOf ext o.f o.plain) o.f.versionNeeded], [])
 
@@ -276,14 +278,14 @@ theorem finishFile_ghost (ext : WExt) {r : Nat} {g : Ghost} {s : WState} {d : De
       | false =>
         rw [hraw] at hg
         simp only [Bool.false_eq_true, if_false] at hg
-        by_cases hov : o.f.largeFile = false ∧ UInt64.ofNat (dataOf ext o.f o.plain).length > ZIP64_BYTES_THR
+        by_cases hov : o.f.largeFile = false ∧ (UInt64.ofNat (dataOf ext o.f o.plain).length > ZIP64_BYTES_THR ∨ o.plain.length > 0xFFFFFFFF)
         · rw [if_pos hov] at hg; cases hg
         rw [if_neg hov] at hg
         cases hg
         apply WSat.mono (finishFile_norm_ghost ext hop hwf hc hmode hraw hdp)
         intro rs d' hq
         rcases hq with hq | hq
-        · exact absurd ⟨hq.1, hq.2.1⟩ hov
+        · exact absurd ⟨hq.1, Or.inl hq.2.1⟩ hov
         · exact hq.2
 
 /-- Closing is refused: `finish_file` fails, nothing in the sink is touched, the writer is stuck. -/
